@@ -110,6 +110,13 @@ func main() {
 	var rws []rewrite
 	rws = append(rws, mapOrderRewrites()...)
 	rws = append(rws, crashHookRewrites()...)
+	// hang check: waiting for a progress bar that is still running after it was told to complete
+	// would block forever (nothing else completes it); report it instead of blocking
+	rws = append(rws, rewrite{
+		name: "hangcheck:pbar", file: "pkg/pbar/bar.go", imp: true,
+		edits: [][2]string{{"\t\tb.b.Wait()", "\t\tverifrt.BarWait(b.b.IsRunning, b.b.Wait)"}},
+		count: []int{2},
+	})
 	switch variant {
 	case "plain":
 	case "b3":
